@@ -102,6 +102,14 @@ func (env *Env) checkTimeoutLayer(layer int, apps []*App) string {
 			if !env.hasCancelSourceAbove(layer) && c.In.Exec.IsCanceled() {
 				return "inner result returned but the execution inside the Timeout was cancelled"
 			}
+			// the verdict: a result that passes through is a failure for the Timeout exactly when it is (an
+			// inner policy's or the function's own) ErrExceeded
+			if !env.hasCancelSourceAbove(layer) {
+				wantOK := !errors.Is(out.Error, timeout.ErrExceeded)
+				if out.Success != wantOK || out.SuccessAll != (wantOK && c.Out.Res.SuccessAll) {
+					return fmt.Sprintf("Timeout passed %s through with verdict Success=%v SuccessAll=%v (inner SuccessAll=%v)", resStr(out), out.Success, out.SuccessAll, c.Out.Res.SuccessAll)
+				}
+			}
 		}
 	}
 	sort.Slice(evTimes, func(i, j int) bool { return evTimes[i] < evTimes[j] })
@@ -155,7 +163,6 @@ func matchesAny(cs []Cond, v int, err error) bool {
 // checkHedgeLayer: C09.
 func (env *Env) checkHedgeLayer(layer int, apps []*App) string {
 	s := env.Stack[layer]
-	D := int64(s.HDelay)
 	if env.hedgeAbove(layer) {
 		return "" // several applications of this layer overlap: their attempts cannot be told apart in the log
 	}
@@ -174,8 +181,8 @@ func (env *Env) checkHedgeLayer(layer int, apps []*App) string {
 			return fmt.Sprintf("hedge started %d attempts, maxHedges is %d", a.Started, s.MaxHedges)
 		}
 		for j, at := range a.StartTimes {
-			if at < t0+int64(j+1)*D {
-				return fmt.Sprintf("hedge %d started at t=%d, before %d hedge delays (%d) had elapsed since t=%d", j+1, at, j+1, D, t0)
+			if at < t0+hedgeOffset(s, j+1) {
+				return fmt.Sprintf("hedge %d started at t=%d, before the first %d hedge delays (%d in all) had elapsed since t=%d", j+1, at, j+1, hedgeOffset(s, j+1), t0)
 			}
 		}
 		if a.Out == nil {
